@@ -4,6 +4,7 @@ package c18
 
 import (
 	"fmt"
+	"go/token"
 	"sort"
 	"strconv"
 	"strings"
@@ -19,11 +20,11 @@ const modPath = "example.com/m"
 
 // Ty is a field type of the origin struct.
 type Ty struct {
-	K    string `json:"k"`              // basic | named | ptr | slice | array | map | any | error | ifacelit
-	Name string `json:"name,omitempty"` // basic: int, string, …; named: the type's name
-	Pkg  string `json:"pkg,omitempty"`  // named: "origin" | "lib" | "target" | a std import path
+	K    string `json:"k"`              // basic | named | ptr | slice | array | map | any | error | ifacelit | alias
+	Name string `json:"name,omitempty"` // basic: int, string, …; named: the type's name; alias: the alias's name
+	Pkg  string `json:"pkg,omitempty"`  // named: "origin" | "lib" | "target" | "internal" | a std import path; alias: "origin"
 	Len  int    `json:"len,omitempty"`  // array
-	Elem *Ty    `json:"elem,omitempty"` // ptr, slice, array, map value
+	Elem *Ty    `json:"elem,omitempty"` // ptr, slice, array, map value; alias: the right-hand side of `type Name = …`
 	Key  *Ty    `json:"key,omitempty"`  // map key
 }
 
@@ -62,6 +63,9 @@ type Group struct {
 type Input struct {
 	OriginPkg string       `json:"origin_pkg"` // last path element = package name of the origin package
 	LibPkg    string       `json:"lib_pkg"`    // a second foreign package (element types)
+	// the name in the `package` clause when it differs from the directory (dir money, `package currency`); "" = the same
+	OriginDecl string `json:"origin_decl,omitempty"`
+	LibDecl    string `json:"lib_decl,omitempty"`
 	WithAs    int          `json:"with_as"`    // variant of origin.WithAs' methods (0..4)
 	Types     []OriginType `json:"types"`
 	Groups    []Group      `json:"groups"`
@@ -78,11 +82,51 @@ func pkgPathOf(in *Input, pkg string) string {
 		return modPath + "/" + in.LibPkg
 	case "target":
 		return modPath + "/target"
+	case "internal":
+		// a package only the origin's tree may import: the partial package cannot name its types
+		return modPath + "/" + in.OriginPkg + "/internal/" + internalPkgName
 	case "":
 		return ""
 	}
 	return pkg // std
 }
+
+// declNameOf: the name the package DECLARES - what an import without an explicit name binds in the importing file.
+// (pkgNameOf is the last element of the import path: the name gengo's import tracker derives, and the qualifier the
+// harness' own sources use - they import with an explicit name whenever the two differ.)
+func declNameOf(in *Input, pkg string) string {
+	switch {
+	case pkg == "origin" && in.OriginDecl != "":
+		return in.OriginDecl
+	case pkg == "lib" && in.LibDecl != "":
+		return in.LibDecl
+	}
+	return pkgNameOf(in, pkg)
+}
+
+// declared name of the package with this import path, "" for a path outside the synthetic module
+func (in *Input) declNameOfPath(path string) string {
+	for _, p := range []string{"origin", "lib", "target", "internal"} {
+		if pkgPathOf(in, p) == path {
+			return declNameOf(in, p)
+		}
+	}
+	if path == modPath+"/rpl" {
+		return "rpl"
+	}
+	return ""
+}
+
+func usableDeclName(n string) bool {
+	switch n {
+	case "main", "init", "_", "target", "rpl", "og", "tg", "in", "out", "i", "o":
+		return false
+	}
+	return rawIsIdent(n) && token.Lookup(n) == token.IDENT && !exported(n)
+}
+
+// name of the package below <origin>/internal/ (types Item, Entry, Code)
+const internalPkgName = "hid"
 
 func pkgNameOf(in *Input, pkg string) string {
 	switch pkg {
@@ -92,6 +136,8 @@ func pkgNameOf(in *Input, pkg string) string {
 		return in.LibPkg
 	case "target":
 		return "target"
+	case "internal":
+		return internalPkgName
 	}
 	if i := strings.LastIndex(pkg, "/"); i >= 0 {
 		return pkg[i+1:]
@@ -127,7 +173,7 @@ func (t *Ty) src(in *Input, from string) string {
 		return "error"
 	case "ifacelit":
 		return ifaceLitText
-	case "named":
+	case "named", "alias":
 		if t.Pkg == from {
 			return t.Name
 		}
@@ -144,6 +190,8 @@ func (t *Ty) src(in *Input, from string) string {
 	return "int"
 }
 
+// the packages the RENDERED type mentions below the top level: an alias is printed through its right-hand side
+// (typesx.FromTType), so only the packages of the right-hand side count
 func (t *Ty) pkgs(acc map[string]bool) {
 	if t == nil {
 		return
@@ -208,7 +256,8 @@ func ukindOf(in *Input, t *Ty) string {
 		return "UIface"
 	case t.Pkg == "target" && t.Name == "LMap":
 		return "UMap"
-	case t.Pkg == "origin" && t.Name == "Kind", t.Pkg == "lib" && t.Name == "Code", t.Pkg == "time" && t.Name == "Duration":
+	case t.Pkg == "origin" && t.Name == "Kind", t.Pkg == "lib" && t.Name == "Code", t.Pkg == "time" && t.Name == "Duration",
+		t.Pkg == "internal" && t.Name == "Code", t.Pkg == "origin" && t.Name == "secret":
 		return "UOther"
 	case t.Pkg == "origin":
 		for i := range in.Types {
@@ -253,8 +302,148 @@ func (t *Ty) coq(in *Input) string {
 		return fmt.Sprintf("(TArray %d %s)", t.Len, t.Elem.coq(in))
 	case "map":
 		return "(TMap " + t.Key.coq(in) + " " + t.Elem.coq(in) + ")"
+	case "alias":
+		return fmt.Sprintf("(TAlias %s %s %s)", core.Hex(pkgPathOf(in, t.Pkg)), core.Hex(t.Name), t.Elem.coq(in))
 	}
 	return "(TBasic " + core.Hex("int") + ")"
+}
+
+// ---------------------------------------------------------------------------------------------
+// alias types (`type Items = []hid.Item`, declared in the origin package) and types the partial package cannot name
+
+// what the alias stands for (types.Unalias)
+func (t *Ty) unalias() *Ty {
+	for t != nil && t.K == "alias" && t.Elem != nil {
+		t = t.Elem
+	}
+	return t
+}
+
+// a named type that code outside the origin's tree cannot write down: a type of <origin>/internal/…, or unexported
+func (t *Ty) unnameableHere() bool {
+	return t.K == "named" && (t.Pkg == "internal" || ((t.Pkg == "origin" || t.Pkg == "lib") && !exported(t.Name)))
+}
+
+// mentionsUnnameable: the type's full expansion (aliases resolved) mentions such a type
+func (t *Ty) mentionsUnnameable() bool {
+	if t == nil {
+		return false
+	}
+	return t.unnameableHere() || t.Elem.mentionsUnnameable() || t.Key.mentionsUnnameable()
+}
+
+// writtenUnnameable: the type AS WRITTEN in the origin struct (alias names are not looked through) mentions such a type:
+// no partial struct outside the origin's tree can have a field of that type at all
+func (t *Ty) writtenUnnameable() bool {
+	if t == nil {
+		return false
+	}
+	if t.K == "alias" {
+		return false
+	}
+	return t.unnameableHere() || t.Elem.writtenUnnameable() || t.Key.writtenUnnameable()
+}
+
+// nestedAliasUnnameable: BELOW the top level the type as written mentions an alias whose expansion mentions an
+// unnameable type (`[]origin.Item` with `type Item = hid.Item`): TypeLit expands it to `[]hid.Item`
+func (t *Ty) nestedAliasUnnameable(top bool) bool {
+	if t == nil {
+		return false
+	}
+	if t.K == "alias" {
+		if top {
+			return false // printed by its own name
+		}
+		return t.Elem.mentionsUnnameable()
+	}
+	return t.Elem.nestedAliasUnnameable(false) || t.Key.nestedAliasUnnameable(false)
+}
+
+// the packages the type AS WRITTEN in a source file mentions: an alias is written by its own name
+func (t *Ty) srcPkgs(acc map[string]bool) {
+	if t == nil {
+		return
+	}
+	if t.K == "named" || t.K == "alias" {
+		acc[t.Pkg] = true
+	}
+	if t.K == "alias" {
+		return
+	}
+	t.Elem.srcPkgs(acc)
+	t.Key.srcPkgs(acc)
+}
+
+// every alias mentioned by the type (outermost first)
+func (t *Ty) aliases(visit func(*Ty)) {
+	if t == nil {
+		return
+	}
+	if t.K == "alias" {
+		visit(t)
+	}
+	t.Elem.aliases(visit)
+	t.Key.aliases(visit)
+}
+
+func (t *Ty) named(visit func(*Ty)) {
+	if t == nil {
+		return
+	}
+	if t.K == "named" {
+		visit(t)
+	}
+	t.Elem.named(visit)
+	t.Key.named(visit)
+}
+
+// retained, unreplaced fields of the enabled struct declarations
+func (in *Input) retainedFields(visit func(s *Spec, f *Field, replaced bool)) {
+	for _, fs := range in.flat() {
+		s := fs.S
+		if !s.enabled() || !(s.RHS == "sel" || s.RHS == "local") || in.Types[s.Origin].NonStruct != "" {
+			continue
+		}
+		omit := map[string]bool{}
+		for _, o := range s.Omit {
+			omit[o] = true
+		}
+		repl := parseReplace(s.Replace)
+		for i := range in.Types[s.Origin].Fields {
+			f := &in.Types[s.Origin].Fields[i]
+			if omit[f.Name] {
+				continue
+			}
+			_, r := repl[f.Name]
+			visit(s, f, r)
+		}
+	}
+}
+
+// known-finding class nested_alias_of_unnameable_type
+func (in *Input) nestedAliasClass() bool {
+	hit := false
+	in.retainedFields(func(_ *Spec, f *Field, replaced bool) {
+		if !replaced && f.Ty.nestedAliasUnnameable(true) {
+			hit = true
+		}
+	})
+	return hit
+}
+
+// class of the repaired defect replace_on_alias_field (fixes/C18-replace-on-alias-field.diff): a retained field under a
+// (coherent) replace tag whose type is written through an alias of a named struct: createFieldSnippet had no case for
+// *types.Alias, so the replace was not seen by the copy body (`out.A = in.A`)
+func (in *Input) replacedAliasClass() bool {
+	hit := false
+	in.retainedFields(func(s *Spec, f *Field, replaced bool) {
+		if replaced && f.Ty.K == "alias" && f.Ty.unalias().K == "named" {
+			if r := parseReplace(s.Replace)[f.Name]; len(r) > 0 && in.replaceCoherent(s, f, r[0]) {
+				hit = true
+			}
+		}
+	})
+	return hit
 }
 
 func coqFields(in *Input, fs []Field) string {
@@ -428,6 +617,9 @@ func (in *Input) outOfDomain(s *Spec) []string {
 		if f.Embedded {
 			// emitted as a named field; names/types/tags still mirror — inside the domain, embeddedness is not compared (d)
 		}
+		if f.Ty.writtenUnnameable() && s.RHS == "sel" {
+			why = append(why, "retained field whose type, as written, mentions a type the partial package cannot name (c)")
+		}
 		tag := f.Tag
 		if r, ok := repl[f.Name]; ok {
 			if !in.replaceCoherent(s, f, r[0]) {
@@ -448,6 +640,12 @@ func (in *Input) outOfDomain(s *Spec) []string {
 
 // replaceCoherent: the origin field is a named struct of the menu and the replacement provides DeepCopyIntoAs(*FieldType)
 func (in *Input) replaceCoherent(s *Spec, f *Field, to string) bool {
+	if f.Ty.K == "alias" {
+		// an alias IS the type it stands for: `F InnerA` (type InnerA = Inner) is a field of the named struct type Inner
+		g := *f
+		g.Ty = *f.Ty.unalias()
+		return in.replaceCoherent(s, &g, to)
+	}
 	if f.Ty.K != "named" {
 		return false
 	}
@@ -517,11 +715,20 @@ func (in *Input) shadowClass() bool {
 		}
 		for i := range in.Types[s.Origin].Fields {
 			f := &in.Types[s.Origin].Fields[i]
-			if omit[f.Name] || !(f.Ty.K == "slice" || f.Ty.K == "map") {
+			if omit[f.Name] {
 				continue
 			}
 			ps := map[string]bool{}
-			f.Ty.pkgs(ps)
+			switch {
+			case f.Ty.K == "slice" || f.Ty.K == "map":
+				f.Ty.pkgs(ps)
+			case f.Ty.K == "alias" && (f.Ty.unalias().K == "slice" || f.Ty.unalias().K == "map"):
+				// since fix adc5fac a container field declared through an alias is copied with make(<alias name>, …):
+				// the block mentions the alias's own package only
+				ps[f.Ty.Pkg] = true
+			default:
+				continue
+			}
 			for p := range ps {
 				if p != "target" && shadowName(pkgNameOf(in, p), "in", "out", "i", "o") {
 					return true
@@ -556,7 +763,7 @@ func (in *Input) ifaceClass() bool {
 			if _, r := repl[f.Name]; omit[f.Name] || r {
 				continue
 			}
-			if f.Ty.mentionsIfaceLit() {
+			if f.Ty.K != "alias" && f.Ty.mentionsIfaceLit() { // a top-level alias is printed by its own name
 				return true
 			}
 		}
@@ -629,6 +836,8 @@ func (in *Input) defectClass() string {
 		}
 	}
 	switch {
+	case in.replacedAliasClass():
+		return "replace_on_alias_field"
 	case tagRef:
 		return "tag_rendered_as_type_reference"
 	case grouped:
